@@ -84,6 +84,9 @@ pub struct OutStep {
     /// real pause (ms) the controller takes before this step; 0 almost always
     #[serde(default)]
     pub pause_ms: u32,
+    /// instead of writing, the child closes this descriptor (it may go on using the other one)
+    #[serde(default)]
+    pub close: bool,
 }
 #[derive(Serialize, Deserialize, Clone, Debug, PartialEq)]
 pub struct Behav {
@@ -709,8 +712,15 @@ pub fn drive_run_l(w: &mut World, actor: &str, sc: &RunScript, hang: Duration, l
                             std::thread::sleep(Duration::from_millis(o.pause_ms as u64));
                         }
                         ctl.tick();
-                        ctl.send(conn, &format!("OUT {} {}\n", o.fd, o.hex));
+                        if o.close {
+                            ctl.send(conn, &format!("CLOSE {}\n", o.fd));
+                        } else {
+                            ctl.send(conn, &format!("OUT {} {}\n", o.fd, o.hex));
+                        }
                         match ctl.wait_for(|e| matches!(e, Ev::Line{conn: c, ..} if *c == conn) || matches!(e, Ev::Eof{conn: c} if *c == conn), hang) {
+                            Some(Ev::Line { line, .. }) if line.starts_with("ACK") && o.close => {
+                                tr.log.push(format!("close {} {} fd{}", tr.helpers[i].command, tr.helpers[i].target, o.fd));
+                            }
                             Some(Ev::Line { line, .. }) if line.starts_with("ACK") => {
                                 let b = unhex(&o.hex);
                                 tr.log.push(format!("out {} {} fd{} {}", tr.helpers[i].command, tr.helpers[i].target, o.fd, show(&b[..b.len().min(24)])));
